@@ -189,7 +189,7 @@ def panic_sites(gen: Gen, f: dict) -> List[Site]:
                 out.append(Site(fn, nm + "!", _macro_sig(e), e.get("at") or _first_at(e), H.brief(e, 120)))
                 return  # the expansion's own internals are not sites
             if nm in ("format_ident",):
-                out.append(Site(fn, "format_ident!", _fmt_ident_sig(e), _first_at(e), H.brief(e, 120), _fmt_ident_auto(e)))
+                out.append(Site(fn, "format_ident!", _fmt_ident_sig(e), _first_at(e), H.brief(e, 120), _fmt_ident_auto(e, f["body"]["tree"])))
                 return
             if nm == "parse_quote":
                 out.append(Site(fn, "parse_quote!", _parse_quote_sig(e), _first_at(e), H.brief(e, 120)))
@@ -254,7 +254,8 @@ def _macro_sig(e: dict) -> str:
 
 
 def _fmt_ident_sig(e: dict) -> str:
-    fa = [n for n in H.walk(e.get("e")) if n.get("k") == "fmt_args"]
+    own = _own_fmt_args(e)
+    fa = [own] if own is not None else [n for n in H.walk(e.get("e")) if n.get("k") == "fmt_args"]
     if fa and fa[0].get("fa"):
         f = fa[0]["fa"]
         return "%s <- %s" % ((f.get("fmt_str") or {}).get("v"), ",".join(a.get("expr", "?")[:30] for a in f.get("args", [])))
@@ -262,14 +263,83 @@ def _fmt_ident_sig(e: dict) -> str:
     return "lit:%s" % (lits[0] if lits else "?")
 
 
-def _fmt_ident_auto(e: dict) -> Optional[str]:
+def _own_fmt_args(e: dict) -> Optional[dict]:
+    """The fmt_args node of format_ident!'s own template: the one that is not inside an argument
+    (arguments are wrapped in IdentFragmentAdapter(..) by the expansion and may contain format! calls of their own)."""
+    inside = set()
+    for n in H.walk(e.get("e")):
+        if n.get("k") == "call":
+            f = H.strip(n["f"])
+            if isinstance(f, dict) and str(f.get("def", "")).endswith("IdentFragmentAdapter"):
+                for a in n["args"]:
+                    for x in H.walk(a):
+                        inside.add(id(x))
+    for n in H.walk(e.get("e")):
+        if n.get("k") == "fmt_args" and id(n) not in inside:
+            return n
+    return None
+
+
+IDENT_FMT = re.compile(r"^([A-Za-z_][A-Za-z0-9_]*|\{\})([A-Za-z0-9_]|\{\})*$")
+
+
+def _let_init(fn_tree: Any, local_id: int) -> Optional[Any]:
+    """Initialiser of the unique `let <binding> = init;` that introduces a local (None if not exactly one)."""
+    found = []
+    for n in H.walk(fn_tree):
+        if n.get("k") == "let" and isinstance(n.get("pat"), dict) and n["pat"].get("k") == "bind" and n["pat"].get("id") == local_id and n.get("init") is not None:
+            found.append(n["init"])
+    return found[0] if len(found) == 1 else None
+
+
+def _ident_shaped(a: Any, fn_tree: Any, leading: bool, depth: int = 0) -> bool:
+    """Is the string the expression formats to an identifier fragment (a whole identifier when `leading`)?"""
+    a_ = H.strip(a)
+    while isinstance(a_, dict) and a_.get("k") in ("ref", "deref"):
+        a_ = H.strip(a_["e"])
+    if not isinstance(a_, dict) or depth > 3:
+        return False
+    t = a_.get("ty") or ""
+    if a_.get("k") in ("local", "field") and re.search(r"\bIdent$", t):
+        return True
+    co = H.call_of(a_)
+    if co and str(co[0].get("def", "")).endswith("snakify"):
+        return True
+    if t.lstrip("&") in INT_TYPES:
+        return not leading          # decimal digits: fine anywhere but at the start
+    if a_.get("k") == "macro" and a_.get("name") == "format":
+        fa = [n for n in H.walk(a_.get("e")) if n.get("k") == "fmt_args"]
+        if not fa or not fa[0].get("fa"):
+            return False
+        fmt = (fa[0]["fa"].get("fmt_str") or {}).get("v") or ""
+        if not IDENT_FMT.match(fmt):
+            return False
+        args = []
+        for n in H.walk(a_.get("e")):
+            if n.get("k") == "call":
+                f = H.strip(n["f"])
+                if isinstance(f, dict) and re.search(r"Argument(::<'_>)?::new_display$", str(f.get("def", ""))) and n["args"]:
+                    args.append(n["args"][0])
+        if len(args) != fmt.count("{}"):
+            return False
+        lead = fmt.startswith("{}")
+        return all(_ident_shaped(x, fn_tree, leading and lead and i == 0, depth + 1) for i, x in enumerate(args))
+    if a_.get("k") == "local" and t.lstrip("&") in ("alloc::string::String", "std::string::String", "String", "str"):
+        init = _let_init(fn_tree, a_.get("id"))
+        if init is not None:
+            return _ident_shaped(init, fn_tree, leading, depth + 1)
+    return False
+
+
+def _fmt_ident_auto(e: dict, fn_tree: Any = None) -> Optional[str]:
     """format_ident! cannot panic when the format string is identifier shaped and every argument is an identifier
-    fragment: a proc_macro2/syn Ident or the output of the crate's own snake-casing of an identifier."""
-    fa = [n for n in H.walk(e.get("e")) if n.get("k") == "fmt_args"]
-    if not fa or not fa[0].get("fa"):
+    fragment: a proc_macro2/syn Ident, the crate's own snake-casing of an identifier, an integer after the first
+    character, or a `format!` of such fragments with an identifier-shaped template (directly or through one `let`)."""
+    own = _own_fmt_args(e)
+    if own is None or not own.get("fa"):
         return None
-    fmt = (fa[0]["fa"].get("fmt_str") or {}).get("v") or ""
-    if not re.match(r"^([A-Za-z_][A-Za-z0-9_]*|\{\})([A-Za-z0-9_]|\{\})*$", fmt):
+    fmt = (own["fa"].get("fmt_str") or {}).get("v") or ""
+    if not IDENT_FMT.match(fmt):
         return None
     frags = []
     for n in H.walk(e.get("e")):
@@ -279,23 +349,11 @@ def _fmt_ident_auto(e: dict) -> Optional[str]:
                 frags.append(n["args"][0])
     if not frags:
         return None
-    for a in frags:
-        a_ = H.strip(a)
-        while isinstance(a_, dict) and a_.get("k") in ("ref", "deref"):
-            a_ = H.strip(a_["e"])
-        ok = False
-        if isinstance(a_, dict):
-            t = a_.get("ty") or ""
-            if a_.get("k") in ("local", "field") and re.search(r"\bIdent$", t):
-                ok = True
-            if t.lstrip("&") in INT_TYPES and re.match(r"^[A-Za-z_]", fmt):
-                ok = True        # decimal digits after an identifier start
-            co = H.call_of(a_)
-            if co and str(co[0].get("def", "")).endswith("snakify"):
-                ok = True
-        if not ok:
+    lead = fmt.startswith("{}")
+    for i, a in enumerate(frags):
+        if not _ident_shaped(a, fn_tree, lead and i == 0):
             return None
-    return "identifier-shaped format string whose arguments are identifier fragments (Ident / snake-cased identifier)"
+    return "identifier-shaped format string whose arguments are identifier fragments (Ident / snake-cased identifier / integer / format! of those)"
 
 
 def _parse_quote_sig(e: dict) -> str:
